@@ -85,7 +85,8 @@ class MinimizerScipyOptimize(MinimizerBase):
 
     @parameter_values.setter
     def parameter_values(self, new_values):
-        self._par_val = np.array(new_values)
+        # always floats: with integer start values (e.g. defaults 'a=1' in the model function signature) later assignments would be truncated
+        self._par_val = np.array(new_values, dtype=float)
         self.reset()
 
     @property
